@@ -497,7 +497,7 @@ def check_exit_case(ctx, exe, drv, route, objs):
 
 def run_exit_routes(ctx, drv, volume, only=None):
     exe = ctx.build_harness('lifecycle_exit.c', name='lifecycle_exit', extra=['-Wl,--wrap=fclose'])
-    cases = [(r, 'p1 o2 c3 c4 r5 f g6 p7') for r in ROUTES] + [(r, 'p1') for r in ROUTES]
+    cases = [(r, 'p1') for r in ROUTES] + [(r, 'p1 o2 c3 c4 r5 f g6 p7') for r in ROUTES]
     cases += [(ctx.rng.choice(list(ROUTES)), gen_exit_objs(ctx.rng)) for _ in range(volume)]
     if only:
         cases = [only]
